@@ -71,10 +71,16 @@ def call(op: str, a: dict) -> dict:
             subs = np.array(a["subs"], dtype=int)
             vals = np.array(a["vals"], dtype=float)[:, None]
             red = {"sum": np.sum, "max": np.max, "min": np.min, "count2": (lambda x: len(x) == 2)}[a["red"]]
+            # sum / max / min commute with a positive power-of-two factor (exact): the magnitude of the values is a
+            # presentation of the request (rotated with the array layout)
+            f = {"strided": 2.0 ** -40, "grown": 2.0 ** 40}.get(bind.get_layout(), 1.0) if a["red"] in ("sum", "max", "min") else 1.0
+            vals = vals * f
             if a["red"] == "sum" and len(a["subs"]) % 2 == 0:
                 r = ttb.sptensor.from_aggregator(subs, vals, tuple(a["shape"]))       # default reducer
             else:
                 r = ttb.sptensor.from_aggregator(subs, vals, tuple(a["shape"]), red)
+            if f != 1.0:
+                r = ttb.sptensor(r.subs.copy(), r.vals / f, r.shape) if r.nnz else r
             return {"st": "ok", "obj": bind.alpha(r)}
         if op in ("sptenrand", "from_function_sparse"):
             req = a["req"]
